@@ -289,8 +289,10 @@ func (e *env) runCase(c Case) {
 		e.splitCase(c, nil)
 	case "hs-parse":
 		e.hsParseCase(c)
-	case "wrong-secret", "tampered-response":
+	case "wrong-secret", "tampered-response", "reflection":
 		e.noCompleteCase(c)
+	case "garbage":
+		e.garbageCase(c)
 	case "data":
 		e.dataCase(c)
 	case "flip":
@@ -364,6 +366,7 @@ func main() {
 	e.hsParseCases()
 	e.noCompleteCases()
 	e.dataCases()
+	e.garbageCases()
 	e.flipCases()
 	e.ticketCases()
 	e.cleanup()
